@@ -241,6 +241,8 @@ def replay(ob, scratch, trace_out, tag):
         return "noreproduce", out[-2000:], path
     if rc == 77:
         return "assume", out[-2000:], path
+    if rc == 2 and "REPLAY: cannot open" in out:
+        return "error", out[-2000:], path
     return "reproduced", "rc=%s\n%s" % (rc, out[-3000:]), path
 
 
